@@ -4,6 +4,7 @@ import (
 	"fmt"
 	"go/token"
 	"go/types"
+	"os"
 	"sort"
 	"strings"
 	"unicode"
@@ -42,6 +43,7 @@ func formatterFuncs(w *World) []*ssa.Function {
 
 type fmtFacts struct {
 	acc       map[string]bool            // "Ctx.child" read through an accessor (child or label's child)
+	accOut    map[string]bool            // ... by an accessor call whose node (its text, what a visitor makes of it) can reach the function's result
 	accAll    map[string]map[string]bool // ctx -> children read through All*() in one function: fn|ctx -> set
 	getText   map[string]bool            // contexts on which GetText() is called
 	children  map[string]map[string]bool // ctx whose GetChildren() is walked -> context types handled by assertions in that function
@@ -219,7 +221,7 @@ func commentQueryFns(w *World) map[*ssa.Function][]queryFn {
 
 func collectFmtFacts(w *World, ctxs map[string]*CtxInfo) *fmtFacts {
 	queryFns := commentQueryFns(w)
-	ff := &fmtFacts{acc: map[string]bool{}, accAll: map[string]map[string]bool{}, getText: map[string]bool{}, children: map[string]map[string]bool{},
+	ff := &fmtFacts{acc: map[string]bool{}, accOut: map[string]bool{}, accAll: map[string]map[string]bool{}, getText: map[string]bool{}, children: map[string]map[string]bool{},
 		leftAt: map[string]bool{}, rightAt: map[string]bool{}, leftStop: map[string]bool{},
 		selfLeft: map[string]bool{}, callLeft: map[string]map[string]bool{}, visitFrom: map[string]map[string]bool{}}
 	fmtSet := map[*ssa.Function]bool{}
@@ -244,6 +246,22 @@ func collectFmtFacts(w *World, ctxs map[string]*CtxInfo) *fmtFacts {
 		for _, hf := range helpers {
 			forEachInstr(hf, func(b *ssa.BasicBlock, ins ssa.Instruction) {
 				if ta, ok := ins.(*ssa.TypeAssert); ok {
+					// a case for a kind of child counts when what it finds can reach the text handed back
+					if !flowsToResult(hf, ta) {
+						// a type switch that binds nothing (`switch x.(type) { case *A, *B: keep(x) }`): the node itself is what is
+						// handed on, under the case
+						bound := false
+						if ta.Referrers() != nil {
+							for _, ref := range *ta.Referrers() {
+								if ex, ok := ref.(*ssa.Extract); ok && ex.Index == 0 && ex.Referrers() != nil && len(*ex.Referrers()) > 0 {
+									bound = true
+								}
+							}
+						}
+						if bound || !ta.CommaOk || !flowsToResult(hf, valueRoot(ta.X)) {
+							return
+						}
+					}
 					if n := grammarCtxName(ta.AssertedType); n != "" {
 						handled[n] = true
 					}
@@ -270,11 +288,20 @@ func collectFmtFacts(w *World, ctxs map[string]*CtxInfo) *fmtFacts {
 				child := strings.TrimSuffix(strings.TrimSuffix(ai.What, "*"), "=")
 				if strings.HasSuffix(ai.What, "=") {
 					ff.acc[ai.Ctx+".label:"+child] = true
+					if flowsToResult(fn, call) {
+						ff.accOut[ai.Ctx+".label:"+child] = true
+					}
 					if ci := ctxs[ai.Ctx]; ci != nil {
 						child = ci.Labels[child]
 					}
 				}
 				ff.acc[ai.Ctx+"."+child] = true
+				if flowsToResult(fn, call) {
+					ff.accOut[ai.Ctx+"."+child] = true
+				} else if lr := w.G4.lrule[child]; lr != nil && len(lr.Literals) == 1 && keywordPresenceFlows(fn, call, lr.Literals[0]) {
+					// a keyword (root, repeat): its presence is its content - the spelling is written on the edge where it is there
+					ff.accOut[ai.Ctx+"."+child] = true
+				}
 				if strings.HasSuffix(ai.What, "*") {
 					k := fnKey(fn) + "|" + ai.Ctx
 					if ff.accAll[k] == nil {
@@ -425,9 +452,13 @@ func runC09(w *World, r *Report) {
 			}
 			key := name + "." + child
 			how := ""
+			readOnly := false
 			switch {
 			case covered[name]:
 				how = "GetText() of this or an enclosing context"
+			case ff.acc[key] && !ff.accOut[key]:
+				how = ""
+				readOnly = true
 			case ff.acc[key]:
 				how = "accessor"
 			case ff.children[name] != nil && (ci.IsTok[child] && ff.children[name]["<terminal>"] || !ci.IsTok[child] && childHandled(w, ff.children[name], child, ctxs)):
@@ -436,7 +467,7 @@ func runC09(w *World, r *Report) {
 			// labelled tokens: every label must be read
 			if how == "accessor" {
 				for label, lchild := range ci.Labels {
-					if lchild == child && !ff.acc[name+".label:"+label] && ci.Children[child].Many {
+					if lchild == child && !ff.accOut[name+".label:"+label] && ci.Children[child].Many {
 						how = ""
 						key = name + "." + child + " (label " + label + ")"
 					}
@@ -444,12 +475,15 @@ func runC09(w *World, r *Report) {
 			}
 			if how != "" {
 				r.pass(ruleContent, key, "internal/parser/packet_dsl_formattor.go", how)
+			} else if readOnly {
+				r.fail(ruleContent, key, "internal/parser/packet_dsl_formattor.go", fmt.Sprintf("the formatter asks for %s of %s but nothing it obtains from it can reach the text the function returns (only presence tests, or a value that is thrown away): whatever the author wrote there is dropped from the formatted text", child, name))
 			} else {
 				r.fail(ruleContent, key, "internal/parser/packet_dsl_formattor.go", fmt.Sprintf("the formatter never reads %s of %s (no accessor call, no enclosing GetText(), no GetChildren() case): whatever the author wrote there is dropped from the formatted text", child, name))
 			}
 		}
 	}
 	r.floor(ruleContent, 45)
+	c09PresentChildPrinted(w, r, ctxs)
 
 	// ---- 2. order coverage ----
 	const ruleOrder = "C09/order-coverage"
@@ -568,6 +602,9 @@ func runC09(w *World, r *Report) {
 				r.fail(ruleAnch, c+": own-line comment before it is kept", "internal/parser/packet_dsl_formattor.go", "no getHiddenLeft(ctx.GetStart()) for this construct: a `// comment` on the line(s) before it is only reachable through this token and is deleted")
 			}
 		}
+	}
+	if os.Getenv("FINLINT_DEBUG_RIGHT") != "" {
+		fmt.Fprintf(os.Stderr, "rightAt: %v\n", sortedBoolKeys(ff.rightAt))
 	}
 	// an input without any declaration: the start rule can match nothing, then the only token is EOF and the comments in front
 	// of it are reachable through the start context's own start token alone
@@ -1124,7 +1161,6 @@ func closureLineOnly(mc *ssa.MakeClosure, bound ssa.Value, depth int) bool {
 	}
 	return true
 }
-
 
 // c10SameLineAnchor: the one positional predicate the formatter may use is "this hidden comment is on the line of the token the hidden
 // tokens were asked for". The line it is compared with must therefore be the line of that very token - not of another token of the same
